@@ -1,0 +1,106 @@
+//go:build verif
+
+// Contracts for the deductive verification in /verif (govc): ClientHello extension
+// encoders of handshake_extensions.go (property C29). Comment-only file.
+
+package tls
+
+// A TLS extension (RFC 8446 4.2): 2-byte type, 2-byte length of the body that follows.
+//@ pred extHdr(r, typ) = len(r) >= 4 && r[0] == uint8(typ >> 8) && r[1] == uint8(typ & 0xff) && (int(r[2])<<8 | int(r[3])) == len(r) - 4
+//@ pred be16at(r, i) = int(r[i])<<8 | int(r[i+1])
+
+//@ func (*NullExtension).Marshal
+//@   ensures len(result) == 0
+//@   terminates
+
+// renegotiation_info (RFC 5746 3.2): empty renegotiated_connection.
+//@ func (*SecureRenegotiationExtension).Marshal
+//@   ensures extHdr(result, 0xff01) && len(result) == 5 && result[4] == 0
+//@   terminates
+
+// extended_master_secret (RFC 7627 5.1): empty body.
+//@ func (*ExtendedMasterSecretExtension).Marshal
+//@   ensures extHdr(result, 23) && len(result) == 4
+//@   terminates
+
+// status_request (RFC 6066 8): status_type ocsp(1), empty responder list, empty extensions.
+//@ func (*StatusRequestExtension).Marshal
+//@   ensures extHdr(result, 5) && len(result) == 9 && result[4] == 1 && result[5] == 0 && result[6] == 0 && result[7] == 0 && result[8] == 0
+//@   terminates
+
+// signed_certificate_timestamp (RFC 6962 3.3.1): empty body in the ClientHello.
+//@ func (*SCTExtension).Marshal
+//@   ensures extHdr(result, 18) && len(result) == 4
+//@   terminates
+
+// supported_groups (RFC 8422 5.1.1): 2-byte list length, then 2 bytes per group.
+//@ func (*SupportedCurvesExtension).Marshal
+//@   requires e != nil && len(e.Curves) < 32000
+//@   loop 1 invariant len(result) == 6 + 2*len(e.Curves) && fresh(result) && forall(k, 0, it, result[6+2*k] == uint8(e.Curves[k] >> 8) && result[7+2*k] == uint8(e.Curves[k]))
+//@   loop 1 invariant result[0] == 0 && result[1] == 10 && be16at(result, 2) == 2 + 2*len(e.Curves) && be16at(result, 4) == 2*len(e.Curves)
+//@   ensures extHdr(result, 10) && len(result) == 6 + 2*len(e.Curves) && be16at(result, 4) == 2*len(e.Curves)
+//@   ensures forall(k, 0, len(e.Curves), result[6+2*k] == uint8(e.Curves[k] >> 8) && result[7+2*k] == uint8(e.Curves[k]))
+//@   alloc <= 6 + 2*len(e.Curves)
+//@   terminates
+
+// ec_point_formats (RFC 8422 5.1.2): 1-byte list length, then the formats.
+//@ func (*PointFormatExtension).Marshal
+//@   requires e != nil && len(e.Formats) < 255
+//@   loop 1 invariant len(result) == 5 + len(e.Formats) && fresh(result) && forall(k, 0, it, result[5+k] == e.Formats[k])
+//@   loop 1 invariant result[0] == 0 && result[1] == 11 && be16at(result, 2) == 1 + len(e.Formats) && int(result[4]) == len(e.Formats)
+//@   ensures extHdr(result, 11) && len(result) == 5 + len(e.Formats) && int(result[4]) == len(e.Formats)
+//@   ensures forall(k, 0, len(e.Formats), result[5+k] == e.Formats[k])
+//@   alloc <= 5 + len(e.Formats)
+//@   terminates
+
+// session_ticket (RFC 5077 3.2): the ticket bytes are the body.
+//@ func (*SessionTicketExtension).Marshal
+//@   requires e != nil && len(e.Ticket) < 65536
+//@   ensures extHdr(result, 35) && len(result) == 4 + len(e.Ticket)
+//@   ensures forall(k, 0, len(e.Ticket), result[4+k] == e.Ticket[k])
+//@   alloc <= 4 + len(e.Ticket)
+//@   terminates
+
+//@ func (*SignatureAlgorithmExtension).getStructuredAlgorithms
+//@   requires e != nil
+//@   loop 1 invariant len(result) == len(e.SignatureAndHashes) && fresh(result) && forall(k, 0, it, result[k].Hash == uint8(e.SignatureAndHashes[k] >> 8) && result[k].Signature == uint8(e.SignatureAndHashes[k]))
+//@   ensures len(result) == len(e.SignatureAndHashes) && fresh(result)
+//@   ensures forall(k, 0, len(result), result[k].Hash == uint8(e.SignatureAndHashes[k] >> 8) && result[k].Signature == uint8(e.SignatureAndHashes[k]))
+//@   alloc <= len(e.SignatureAndHashes)
+//@   terminates
+
+// signature_algorithms (RFC 8446 4.2.3): 2-byte list length, then (hash, signature) pairs,
+// i.e. each 16-bit SignatureScheme big-endian, in the configured order.
+//@ func (*SignatureAlgorithmExtension).Marshal
+//@   requires e != nil && len(e.SignatureAndHashes) < 32000
+//@   loop 1 invariant len(result) == 6 + 2*len(e.SignatureAndHashes) && fresh(result) && forall(k, 0, it, result[6+2*k] == uint8(e.SignatureAndHashes[k] >> 8) && result[7+2*k] == uint8(e.SignatureAndHashes[k]))
+//@   loop 1 invariant result[0] == 0 && result[1] == 13 && be16at(result, 2) == 2 + 2*len(e.SignatureAndHashes) && be16at(result, 4) == 2*len(e.SignatureAndHashes)
+//@   ensures extHdr(result, 13) && len(result) == 6 + 2*len(e.SignatureAndHashes) && be16at(result, 4) == 2*len(e.SignatureAndHashes)
+//@   ensures forall(k, 0, len(e.SignatureAndHashes), result[6+2*k] == uint8(e.SignatureAndHashes[k] >> 8) && result[7+2*k] == uint8(e.SignatureAndHashes[k]))
+//@   terminates
+
+// server_name (RFC 6066 3): ServerNameList with exactly one entry of name_type host_name(0).
+// (More than one name of the same type is prohibited by the RFC and rejected by the
+// ClientHello parser, an empty list likewise: one domain is the extension's whole domain.)
+//@ func (*SNIExtension).Marshal
+//@   requires e != nil && len(e.Domains) == 1 && len(e.Domains[0]) < 65000
+//@   loop 1 invariant it <= 1 && fresh(result) && (it == 0 ==> len(result) == 0)
+//@   loop 1 invariant it == 1 ==> len(result) == 2 + len(e.Domains[0]) && be16at(result, 0) == len(e.Domains[0]) && forall(j, 0, len(e.Domains[0]), result[2+j] == e.Domains[0][j])
+//@   ensures extHdr(result, 0) && len(result) == 9 + len(e.Domains[0])
+//@   ensures be16at(result, 4) == 3 + len(e.Domains[0]) && result[6] == 0 && be16at(result, 7) == len(e.Domains[0])
+//@   ensures forall(j, 0, len(e.Domains[0]), result[9+j] == e.Domains[0][j])
+//@   terminates
+
+// application_layer_protocol_negotiation (RFC 7301 3.1): 2-byte list length, then for each
+// protocol a 1-byte length and the name, in the configured order (stated for up to two).
+//@ func (*ALPNExtension).Marshal
+//@   requires e != nil && len(e.Protocols) <= 2 && forall(k, 0, len(e.Protocols), len(e.Protocols[k]) < 256)
+//@   loop 1 invariant it <= 2 && fresh(result) && (it == 0 ==> len(result) == 0)
+//@   loop 1 invariant it >= 1 ==> int(result[0]) == len(e.Protocols[0]) && forall(j, 0, len(e.Protocols[0]), result[1+j] == e.Protocols[0][j])
+//@   loop 1 invariant it == 1 ==> len(result) == 1 + len(e.Protocols[0])
+//@   loop 1 invariant it == 2 ==> len(result) == 2 + len(e.Protocols[0]) + len(e.Protocols[1]) && int(result[1+len(e.Protocols[0])]) == len(e.Protocols[1]) && forall(j, 0, len(e.Protocols[1]), result[2+len(e.Protocols[0])+j] == e.Protocols[1][j])
+//@   ensures extHdr(result, 16) && be16at(result, 4) == len(result) - 6
+//@   ensures len(e.Protocols) >= 1 ==> int(result[6]) == len(e.Protocols[0]) && forall(j, 0, len(e.Protocols[0]), result[7+j] == e.Protocols[0][j])
+//@   ensures len(e.Protocols) == 1 ==> len(result) == 7 + len(e.Protocols[0])
+//@   ensures len(e.Protocols) == 2 ==> len(result) == 8 + len(e.Protocols[0]) + len(e.Protocols[1]) && int(result[7+len(e.Protocols[0])]) == len(e.Protocols[1]) && forall(j, 0, len(e.Protocols[1]), result[8+len(e.Protocols[0])+j] == e.Protocols[1][j])
+//@   terminates
